@@ -25,7 +25,7 @@ RULE = ("histories of Namer ops (add/rem/changeAddr/changeName/clear) over names
 ASSUMPTIONS = ["names/addresses are hashable strings; Namer is used single-threaded",
                "the reference model encodes the return values documented in the method docstrings"]
 NSHARDS = {"quick": 8, "thorough": 16}
-REQUIRE = {"hook_evaluations": 1000, "rejected_ops": 100, "changing_ops": 100, "raised_ops": 50}
+REQUIRE = {"constructor_cases": 500, "constructor_conflicts_rejected": 200, "hook_evaluations": 1000, "rejected_ops": 100, "changing_ops": 100, "raised_ops": 50}
 EXHAUSTIVE = {"quick": "all op histories of length <= 3 over the 44-op alphabet",
               "thorough": "all op histories of length <= 4 over the 44-op alphabet"}
 
@@ -57,6 +57,15 @@ def cases(tier, seed, shard, nshards):
         for hist in itertools.product(range(len(ALPHA3)), repeat=ln):
             if i % nshards == shard:
                 yield {"kind": "enum", "ops": [ALPHA3[k] for k in hist]}
+            i += 1
+    # constructor entries: every list of <= 3 (quick) / 4 (thorough) pairs over {a,b,''} x {x,y,''}, as a list and as a
+    # one-shot iterator; a conflicting or incomplete entry must make the constructor raise NamerError (it adds the
+    # entries through addNameAddr), otherwise the maps must equal the sequentially built model
+    pairs = [[n, a] for n in N3 for a in A3]
+    for ln in range(0, (3 if tier == "quick" else 4) + 1):
+        for combo in itertools.product(range(len(pairs)), repeat=ln):
+            if i % nshards == shard:
+                yield {"kind": "ctor", "init": [pairs[k] for k in combo], "as_iter": bool(i % 2), "ops": []}
             i += 1
     rng = random.Random(f"{seed}:C27:{shard}")
     nrand = (2000 if tier == "quick" else 100000) // nshards
@@ -177,7 +186,44 @@ def setup(ctx):
         _state["installed"] = True
 
 
+def run_ctor_case(case, ctx):
+    init = [tuple(x) for x in case["init"]]
+    model = Model()
+    expect_raise = False
+    for n, a in init:
+        if model.apply("add", n, a)[0] == "raise":
+            expect_raise = True
+            break
+    entries = iter(init) if case.get("as_iter") else list(init)
+    ctx.count("constructor_cases")
+    try:
+        namer = naming.Namer(entries=entries) if init else naming.Namer(entries=entries if case.get("as_iter") else None)
+    except hioing.NamerError:
+        if not expect_raise:
+            ctx.violation("constructor-rejected-consistent-entries", f"Namer(entries={init}) raised NamerError")
+        else:
+            ctx.count("constructor_conflicts_rejected")
+        return
+    except Exception as ex:
+        ctx.violation("constructor-undocumented-exception", f"Namer(entries={init}) raised {ex!r}")
+        return
+    ab, na = namer.addrByName, namer.nameByAddr
+    if {v: k for k, v in ab.items()} != na or len(ab) != len(na):
+        ctx.violation("constructor-built-non-bijection", f"Namer(entries={init}): addrByName={ab} nameByAddr={na}")
+        return
+    if expect_raise:
+        ctx.violation("constructor-accepted-conflicting-entries", f"Namer(entries={init}) did not raise; maps {ab}/{na}")
+        return
+    if ab != model.ab or na != model.na:
+        ctx.violation("constructor-maps-differ-from-model", f"Namer(entries={init}): {ab}/{na}, model {model.ab}/{model.na}")
+        return
+    if len(init) >= 2:
+        ctx.nontrivial(["ctor", sorted(ab.items()), len(init)])
+
+
 def run_case(case, ctx):
+    if case["kind"] == "ctor":
+        return run_ctor_case(case, ctx)
     model = Model()
     init = case.get("init")
     entries = None
